@@ -131,7 +131,8 @@ Inductive op :=
 | ReplaceFinish                   (* _replace: else-branch `with connection.lock: with self._lock` *)
 | ShutdownFlag | ShutdownCloseMain | ShutdownTrash   (* the three regions of shutdown() *)
 | Orphan (c : nat)                (* ResponseFuture._on_timeout `with connection.lock` *)
-| LateDec (c : nat)               (* Connection.process_msg orphaned-stream branch `with self.lock` *)
+| LateDec (c : nat)               (* Connection.process_msg orphaned-stream branch `with self.lock`: in_flight -= 1 AND orphaned_request_ids.remove *)
+| LateRecycle                     (* Connection.process_msg `with self.lock: request_ids.append(stream_id)` (no pool-visible effect) *)
 | ConnDefunct (c : nat)           (* Connection.defunct()/close() *)
 | SetKsRead                       (* _set_keyspace_for_all_conns: unlocked reads of is_shutdown, _connection *)
 | SetKsInc (c : nat)              (* Connection.set_keyspace_async `with self.lock` *)
@@ -233,6 +234,7 @@ Definition step (s : state) (o : op) : state * list out :=
       else (s, [])
   | Orphan c =>
       if valid s c && (0 <? c_live (getc s c)) then (updc s c (k_orphan (thrN s)), []) else (s, [])
+  | LateRecycle => (s, [])
   | LateDec c =>
       if valid s c && (0 <? c_orph (getc s c)) then (updc s c k_late, []) else (s, [])
   | ConnDefunct c =>
@@ -303,7 +305,7 @@ Definition return_prog (c : nat) (down : bool) : prog :=
   Do (ReturnDec c) (fun _ => Do Notify (fun _ => return_tail c down)).
 
 Definition orphan_prog (c : nat) (down : bool) : prog := Do (Orphan c) (fun _ => return_tail c down).
-Definition late_prog (c : nat) : prog := Do (LateDec c) (fun _ => Do Notify (fun _ => Ret ONone)).
+Definition late_prog (c : nat) : prog := Do (LateDec c) (fun _ => Do Notify (fun _ => Do LateRecycle (fun _ => Ret ONone))).
 
 Definition task_prog (ok : bool) : prog :=
   Do ReplaceCheck (fun r => match first r with
@@ -336,7 +338,7 @@ Definition prog_of (m : mop0) : prog :=
    preceding interrupt slot *)
 Definition hooked (o : op) : bool :=
   match o with
-  | GetConn | ShutdownCloseMain | Orphan _ | LateDec _ | ConnDefunct _ | SetSoe | SetKsRead | SetKsInc _ => false
+  | GetConn | ShutdownCloseMain | Orphan _ | ConnDefunct _ | SetSoe | SetKsRead | SetKsInc _ => false
   | _ => true
   end.
 
